@@ -6,29 +6,6 @@ use crate::real::Sx;
 use crate::scen;
 use std::ops::*;
 
-fn sym_mat<T: Sx>(p: &str, n: usize) -> Vec<Vec<T>> {
-    (0..n).map(|i| (0..n).map(|j| var::<T>(&format!("{}{}{}", p, i, j))).collect()).collect()
-}
-fn sym_vec<T: Sx>(p: &str, n: usize) -> Vec<T> {
-    (0..n).map(|i| var::<T>(&format!("{}{}", p, i))).collect()
-}
-fn matmul<T: Sx>(a: &[Vec<T>], b: &[Vec<T>]) -> Vec<Vec<T>> {
-    let n = a.len();
-    (0..n).map(|i| (0..n).map(|j| (0..n).fold(k::<T>(0), |s, l| s + a[i][l] * b[l][j])).collect()).collect()
-}
-fn goals_mat<T: Sx>(tag: &str, got: &[Vec<T>], want: &[Vec<T>]) {
-    for i in 0..got.len() {
-        for j in 0..got.len() {
-            goal(&format!("{}[{}][{}]", tag, i, j), eq(got[i][j], want[i][j]));
-        }
-    }
-}
-fn goals_vec<T: Sx>(tag: &str, got: &[T], want: &[T]) {
-    assert_eq!(got.len(), want.len());
-    for i in 0..got.len() {
-        goal(&format!("{}[{}]", tag, i), eq(got[i], want[i]));
-    }
-}
 
 /// A * B for every layout pair for which vek has a Mul impl.
 fn mat_mat<T: Sx, A: ML<T> + Mul<B, Output = C> + Copy, B: ML<T> + Copy, C: ML<T>>() {
